@@ -196,6 +196,11 @@ func init() {
 		st.assume("(=> " + exact + " (= " + v.S + " " + ci + "))")
 		return TupleV{v, Term{exact, SBool}}, true
 	}
+	for _, n := range []string{"fmt.Errorf", "errors.New"} {
+		libModels[n] = func(x *Exec, st *State, e *ast.CallExpr, a []Value, _ []types.Type) (Value, bool) {
+			return x.newRef(st, "err"), true // a new, non-nil error value
+		}
+	}
 	libModels["strconv.Atoi"] = func(x *Exec, st *State, e *ast.CallExpr, a []Value, _ []types.Type) (Value, bool) {
 		s := asTerm(a[0])
 		x.noteAssume("trusted: strconv.Atoi modelled by atoiVal/atoiErr of specs/common.smt2 (base 10, optional sign, int64 range)")
@@ -330,6 +335,14 @@ func (x *Exec) evalCall(e *ast.CallExpr, st *State) (Value, types.Type) {
 				x.rangeAssume(st, t, x.typeOf(e)) // the static result type bounds the value
 			}
 			return v, x.typeOf(e)
+		}
+	}
+	if x.con != nil {
+		for _, n := range strings.Split(x.con.Opts["ignore-contracts"], ",") {
+			if strings.TrimSpace(n) == f.Decl.Name() {
+				x.noteAssume("contract of " + name + " not used in this unit: result unconstrained, heap unchanged")
+				return x.opaqueResult(e, st), x.typeOf(e)
+			}
 		}
 	}
 	if c := x.lookupContract(f.Decl); c != nil {
@@ -919,6 +932,35 @@ func (x *Exec) evalSpecCall(e *ast.CallExpr, st *State) (Value, types.Type) {
 		}
 		tmp.old = nil
 		return x.eval(e.Args[0], tmp)
+	case "nth": // nth(f(args), i): the i-th result of a pure multi-result function
+		call, ok := e.Args[0].(*ast.CallExpr)
+		lit, ok2 := e.Args[1].(*ast.BasicLit)
+		if !ok || !ok2 {
+			engineFail("nth needs (call, literal index)")
+		}
+		var idx int
+		fmt.Sscan(lit.Value, &idx)
+		se, ok := call.Fun.(*ast.SelectorExpr)
+		if !ok {
+			engineFail("nth: only method calls are supported")
+		}
+		rv, rt := x.eval(se.X, st)
+		obj, _, _ := types.LookupFieldOrMethod(rt, true, x.pkg.Types, se.Sel.Name)
+		fn, ok := obj.(*types.Func)
+		if !ok {
+			engineFail("nth: %s is not a method", se.Sel.Name)
+		}
+		c := x.lookupContract(fn)
+		if c == nil || !c.Pure {
+			engineFail("nth: %s has no pure contract", fn.Name())
+		}
+		args, _ := x.evalArgs(call.Args, st)
+		ts := []Term{asTerm(rv)}
+		for _, a := range args {
+			ts = append(ts, asTerm(a))
+		}
+		rtype := fn.Type().(*types.Signature).Results().At(idx).Type()
+		return x.uf(fmt.Sprintf("fn_%s_r%d", calleeName(fn), idx), x.sortOf(rtype), ts...), rtype
 	case "forallS", "existsS": // quantifier over all strings: forallS(k, body)
 		id, ok := e.Args[0].(*ast.Ident)
 		if !ok || len(e.Args) != 2 {
